@@ -5,7 +5,7 @@ okane-core + report/format commands + main, and E9-top (main maps Err to exit(1)
 """
 from analysis import mir, panics, q
 from analysis.mir import norm, callee, callee_def, callee_names, prov
-from . import common, shared
+from . import common, surface, shared
 
 EXPLANATION = (
     "Static enumeration over MIR of every construct in okane-core, the report/format "
@@ -18,12 +18,7 @@ EXPLANATION = (
     "known finding; anything else is a violation.  main's Err arm must reach exit(non-zero)."
 )
 
-R_SRC = "E3.panic-source"
-R_LOOP = "E3.loop"
-R_RANGE = "E3.unbounded-iter"
-R_SCC = "E2.recursion"
 R_MAIN = "E9.main-exit"
-R_SUP = "E3.support"
 
 # floors: numbers counted on the pinned tree
 FLOOR_BODIES = 800
@@ -31,574 +26,22 @@ FLOOR_SOURCES = 40
 FLOOR_LOOPS = 35
 
 
-# ---------------------------------------------------------------------------
-# supporting obligations of table entries
-# ---------------------------------------------------------------------------
-
-def sup_parsed_iter_over_complete_str(P):
-    adt = P.adt("okane_core::parse::adaptor::ParsedIter")
-    for v in adt["variants"]:
-        for f in v["fields"]:
-            if f["name"] == "input":
-                ty = norm(f["ty"])
-                ok = ty.startswith("winnow::LocatingSlice<&str>") and "Partial" not in ty
-                return ok, "ParsedIter.input: " + ty
-    return False, "ParsedIter.input not found"
-
-
-def sup_parsed_context_built_only_in_next_impl(P):
-    sites = [s for s in q.aggregates_of(P, "okane_core::parse::adaptor::ParsedContext") if q.not_test(s[0])]
-    allowed = ("okane_core::parse::adaptor::ParsedIter::next_impl",
-               "okane_core::parse::adaptor::ParseOptions::parse_single")
-    bad = [s[0].key for s in sites if s[0].key not in allowed]
-    if bad or not sites:
-        return False, "ParsedContext built in %s" % (bad or "nowhere")
-    for b, bb, j, rv in sites:
-        for f in rv["fields"]:
-            if f["name"] == "span":
-                rs = prov(b, f["op"])
-                def spanned(r, b=b):
-                    if r.kind != "call":
-                        return False
-                    if "WithSpan" in (r.name or ""):
-                        return True
-                    if r.name == "winnow::Parser::parse" and r.site is not None:
-                        return q.all_roots(b, b.term(r.site)["args"][0],
-                                           lambda r2: r2.kind == "call" and r2.name == "winnow::Parser::with_span")
-                    return False
-                ok = rs and all(spanned(r) for r in rs)
-                if not ok:
-                    return False, "span does not come from with_span: %s" % mir.prov_strs(b, f["op"])
-    return True, "built only in next_impl from a with_span range"
-
-
-def sup_compute_line_number_callers(P):
-    key = "okane_core::parse::error::compute_line_number"
-    allowed = {"okane_core::parse::error::ParseError::new",
-               "okane_core::parse::adaptor::ParsedContext::compute_line_start"}
-    callers = [c for c in q.callers_of(P, key) if q.not_test(c[0])]
-    if not callers:
-        return False, "no caller found"
-    for b, bb, t in callers:
-        if b.key not in allowed:
-            return False, "unexpected caller " + b.key
-        a0, a1 = t["args"]
-        if b.key.endswith("ParseError::new"):
-            ok = q.all_roots(b, a0, lambda r: q.is_param(r, "initial")) and \
-                q.all_roots(b, a1, lambda r: r.kind == "call" and r.name.endswith("::current_token_start"))
-        else:
-            ok = q.all_roots(b, a0, lambda r: q.is_param(r, "self", ("initial",))) and \
-                q.all_roots(b, a1, lambda r: q.is_param(r, "self", ("span", "start")))
-        if not ok:
-            return False, "%s passes %s / %s" % (b.key, mir.prov_strs(b, a0), mir.prov_strs(b, a1))
-    return True, "%d callers, arguments from the same text" % len(callers)
-
-
-def sup_split_dominated_by_len_assert(P):
-    b = P.body("okane_core::parse::error::compute_line_number")
-    sites = mir.call_sites(b, ["core::slice::split_at"])
-    if not sites:
-        return False, "split_at not found"
-    for bb, t in sites:
-        mid = t["args"][1]
-        ok = False
-        for rel, lo, ro in q.rel_in_force(b, bb):
-            if rel == "Le" and panics.same_value(b, lo, mid) and \
-                    q.all_roots(b, ro, lambda r: r.kind == "call" and r.name in ("core::str::len", "core::slice::len")):
-                ok = True
-        if not ok:
-            return False, "no pos <= len() fact in force at split_at"
-    return True, "pos <= s.len() holds at split_at"
-
-
-def _chase_ctor_args(body, operand, through, depth=0):
-    """follow `call` roots through argument 0 while the callee is a listed constructor"""
-    out = set()
-    for r in prov(body, operand):
-        if r.kind == "call" and r.site is not None and depth < 8:
-            t = body.term(r.site)
-            cn = callee_def(t) or ""
-            if any(cn.endswith(x) for x in through) and t["args"]:
-                out |= _chase_ctor_args(body, t["args"][0], through, depth + 1)
-                continue
-        out.add(r)
-    return out
-
-
-def sup_lot_arms_cover_one_of(P):
-    b = P.body("okane_core::parse::posting::lot")
-    panic_sites = [bb for bb, t in b.calls() if callee_def(t) == "core::panicking::panic_fmt"]
-    if len(panic_sites) != 1:
-        return False, "expected one panic site, found %d" % len(panic_sites)
-    site = panic_sites[0]
-    # char switches that the panic can only be reached through
-    for s in sorted(b.live_blocks()):
-        t = b.term(s)
-        if t["k"] != "switch" or t["dty"] != "char":
-            continue
-        if not b.must_pass_edge(site, s, t["otherwise"]):
-            continue
-        arms = set(int(v) for v, _ in t["targets"])
-        # the scrutinee comes (through `?`) from parse_next of peek(opt(one_of(set)))
-        roots = prov(b, t["discr"])
-        sets = []
-        for r in roots:
-            if r.kind == "call" and r.site is not None:
-                for r2 in [r]:
-                    if r2.kind == "call" and r2.site is not None:
-                        ct = b.term(r2.site)
-                        if (callee_def(ct) or "").endswith("Parser::parse_next"):
-                            for r3 in _chase_ctor_args(b, ct["args"][0], ("combinator::peek", "combinator::opt", "token::one_of")):
-                                if r3.kind == "agg" and r3.name == "array" and r3.site is not None:
-                                    for st in b.blocks[r3.site]["stmts"]:
-                                        if st["k"] == "assign" and st["rv"]["k"] == "aggregate" and st["rv"].get("agg") == "array":
-                                            vals = set(f["op"].get("int") for f in st["rv"]["fields"])
-                                            sets.append(vals)
-        if not sets:
-            return False, "cannot trace the scrutinee to a one_of([...]) set"
-        for vals in sets:
-            if vals != arms:
-                return False, "one_of set %s != match arms %s" % (sorted(vals), sorted(arms))
-        return True, "one_of set == arms == %s" % sorted(chr(a) for a in arms)
-    return False, "no char switch guards the unreachable!"
-
-
-def sup_aligned_comma_offset_is_prefix_len(P):
-    b = P.body("<okane_core::syntax::pretty_decimal::PrettyDecimal as std::str::FromStr>::from_str")
-    ck = b.key + "::{closure#0}"
-    sites = [(bb, t) for bb, t in b.calls() if ck in callee_names(t)]
-    if not sites:
-        return False, "call of the aligned_comma closure not found"
-    for bb, t in sites:
-        tup = t["args"][1]
-        vals = []
-        for r in prov(b, tup, suffix=("0",)):
-            vals.append(panics.const_root_int(r))
-        if not vals or any(v is None or not (0 <= v <= 1) for v in vals):
-            return False, "offset argument is not {0,1}: %s" % mir.prov_strs(b, tup)
-    return True, "offset argument roots are the constants 0 / 1"
-
-
-def sup_from_str_accumulate_is_checked(P):
-    b = P.body("<okane_core::syntax::pretty_decimal::PrettyDecimal as std::str::FromStr>::from_str")
-    for body in P.with_closures(b.key):
-        for bb in sorted(body.live_blocks()):
-            t = body.term(bb)
-            if t["k"] == "assert" and t["kind"] == "Overflow" and t["binop"] in ("Mul", "Add"):
-                for o in t["ops"]:
-                    if o.get("k") in ("copy", "move") and body.local_ty(o["place"]["l"]) == "i128":
-                        lv = [panics.const_root_int(r) for r in prov(body, t["ops"][0])]
-                        if lv and all(v in (1, -1) for v in lv):
-                            continue  # sign * mantissa
-                        return False, "unchecked i128 %s at %s" % (t["binop"], body.loc(bb))
-    return True, "no unchecked i128 accumulate"
-
-
-def sup_digit_sub_guarded_by_is_ascii_digit(P):
-    b = P.body("<okane_core::syntax::pretty_decimal::PrettyDecimal as std::str::FromStr>::from_str")
-    n = 0
-    for bb in sorted(b.live_blocks()):
-        t = b.term(bb)
-        if t["k"] == "assert" and t["kind"] == "Overflow" and t["binop"] == "Sub":
-            r0 = prov(b, t["ops"][1])
-            if not (r0 and all(str(r.name) in ("'0'", "48_u32", "48_u8") for r in r0)):
-                continue
-            n += 1
-            ok = False
-            for cn, lab, ct in q.guard_calls(b, bb):
-                if cn.endswith("is_ascii_digit") and lab is True and \
-                        panics.same_root_loose(b, ct["args"][0], t["ops"][0]):
-                    ok = True
-            if not ok:
-                return False, "digit subtraction not under is_ascii_digit()"
-    return (n > 0), "%d digit subtraction(s) under is_ascii_digit()" % n
-
-
-def sup_unfilled_index(P):
-    b = P.body("okane_core::report::book_keeping::add_transaction")
-    idx_sites = mir.call_sites(b, ["std::ops::Index::index", "std::ops::IndexMut::index_mut"])
-    if not idx_sites:
-        return False, "no index site"
-    for bb, t in idx_sites:
-        # the index must be the payload of `unfilled`, whose Some values are Tracked::new(i, ..)
-        # with i the enumerate() counter
-        rs = prov(b, t["args"][1])
-        for r in rs:
-            if r.kind == "agg" and r.name.endswith("Option::None"):
-                continue
-            if r.kind == "call" and r.name.endswith("Option::replace"):
-                continue
-            return False, "index root %s" % mir.show_root(r)
-    reps = mir.call_sites(b, ["std::option::Option::replace"])
-    if len(reps) != 1:
-        return False, "expected one Option::replace on unfilled"
-    rbb, rt = reps[0]
-    val = rt["args"][1]
-    ok = False
-    for r in prov(b, val):
-        if r.kind == "call" and r.name.endswith("Tracked::new") and r.site is not None:
-            a0 = b.term(r.site)["args"][0]
-            if q.all_roots(b, a0, lambda x: x.kind == "call" and x.name.endswith("Iterator>::next") and "Enumerate" in x.name
-                           and tuple(x.fields[-1:]) == ("0",)):
-                ok = True
-    if not ok:
-        return False, "unfilled is not set from the enumerate() index: %s" % mir.prov_strs(b, val)
-    # one push per iteration: every back edge of the posting loop passes the push
-    pushes = q.blocks_calling(b, ["bumpalo::collections::Vec::push"])
-    loops = b.loops()
-    lp = [h for h, blks in loops.items() if rbb in blks]
-    if len(pushes) != 1 or not lp:
-        return False, "push / loop not found"
-    h = lp[0]
-    for (u, v) in b.back_edges():
-        if v == h:
-            # u reachable from header only through the push block
-            if u in b.reach_from(h, without_blocks=(pushes[0],)) and u != h:
-                return False, "an iteration can continue without pushing a posting"
-    return True, "index = enumerate() counter stored in unfilled; one push per completed iteration"
-
-
-def sup_try_from_syntax_rejects_zero_amount(P):
-    return shared.try_from_syntax_table(P)
-
-
-def sup_exchange_only_from_try_from_syntax(P):
-    ex = "okane_core::report::book_keeping::Exchange"
-    sites = [s for s in q.aggregates_of(P, ex) if q.not_test(s[0])]
-    bad = sorted(set(s[0].key for s in sites if s[0].key != ex + "::try_from_syntax"))
-    if bad or not sites:
-        return False, "book_keeping::Exchange constructed in %s" % (bad or "nowhere")
-    cp = "okane_core::report::book_keeping::ComputedPosting"
-    sites2 = [s for s in q.aggregates_of(P, cp) if q.not_test(s[0])]
-    bad2 = sorted(set(s[0].key for s in sites2 if s[0].key != cp + "::compute_from_syntax"))
-    if bad2 or not sites2:
-        return False, "ComputedPosting constructed in %s" % (bad2 or "nowhere")
-    return True, "Exchange built only in try_from_syntax; ComputedPosting only in compute_from_syntax"
-
-
-def sup_intern(P):
-    return shared.intern_impl_after_absent_lookup(P)
-
-
-def sup_rates_index(P):
-    b = P.body("okane_core::report::price_db::NaivePriceRepository::compute_price_table")
-    sites = mir.call_sites(b, ["std::ops::Index::index"])
-    if len(sites) != 1:
-        return False, "expected one rates[..] site"
-    bb, t = sites[0]
-    vec, idx = t["args"]
-    # idx = bound - 1 with bound = partition_point(rates)
-    for r in prov(b, idx):
-        if not (r.kind == "op" and r.name.startswith("Sub")):
-            return False, "index is not bound - 1"
-        blk = b.blocks[r.site]
-        found = False
-        for st in blk["stmts"]:
-            if st["k"] == "assign" and st["rv"]["k"] == "binop" and st["rv"]["op"].startswith("Sub"):
-                l, rr = st["rv"]["l"], st["rv"]["r"]
-                if rr.get("int") != 1:
-                    continue
-                for r2 in prov(b, l):
-                    if r2.kind == "call" and r2.name == "core::slice::partition_point":
-                        pv = b.term(r2.site)["args"][0]
-                        if panics.same_root_loose(b, pv, vec):
-                            found = True
-        if not found:
-            return False, "bound is not partition_point of the indexed vector"
-    return True, "rates[partition_point(rates) - 1]"
-
-
-def sup_parsed_iter_loop_leaves_on_err(P):
-    keys = ["okane_core::format::FormatOptions::format", "okane_core::load::Loader::load_impl",
-            "okane_core::report::price_db::PriceRepositoryBuilder::load_price_db"]
-    for k in keys:
-        b = P.body(k)
-        loops = b.loops()
-        hit = False
-        for h, blks in loops.items():
-            for bb in blks:
-                t = b.term(bb)
-                if t["k"] == "call" and (callee(t) or "").startswith("<okane_core::parse::adaptor::ParsedIter") \
-                        and (callee(t) or "").endswith("::next"):
-                    hit = True
-                    # the item is consumed by `?`: Try::branch, Break arm leaves the loop
-                    ok = False
-                    for bb2 in blks:
-                        t2 = b.term(bb2)
-                        if t2["k"] == "call" and (callee_def(t2) or "").endswith("Try::branch"):
-                            def from_next(r, b=b, t=t):
-                                if r.kind != "call":
-                                    return False
-                                if r.name == callee(t):
-                                    return True
-                                if r.name == "std::result::Result::map_err" and r.site is not None:
-                                    return q.all_roots(b, b.term(r.site)["args"][0],
-                                                       lambda r2: r2.kind == "call" and r2.name == callee(t))
-                                return False
-                            if q.all_roots(b, t2["args"][0], from_next):
-                                nxt = t2["target"]
-                                ds = mir.describe_switch(b, nxt)
-                                if ds and ds[0] == "variant":
-                                    for tb, labs in ds[2].items():
-                                        if "Break" in labs and tb not in blks:
-                                            ok = True
-                    if not ok:
-                        return False, "%s: Err item does not leave the loop" % k
-        if not hit:
-            return False, "%s: ParsedIter loop not found" % k
-    return True, "all three ParsedIter loops leave on the first Err"
-
-
-def sup_from_values_callers(P):
-    key = "okane_core::report::eval::amount::Amount::from_values"
-    callers = [c for c in q.callers_of(P, key) if q.not_test(c[0])]
-    for b, bb, t in callers:
-        a0 = t["args"][0]
-        ty = b.local_ty(a0["place"]["l"]) if a0.get("k") in ("copy", "move") else a0.get("ty", "")
-        if not (ty.startswith("[") or ty.startswith("std::vec::Vec") or "HashMap" in ty
-                or panics.iter_type_finite(P, ty)):
-            return False, "%s passes %s" % (b.key, ty)
-    return True, "%d non-test caller(s), all finite collections" % len(callers)
-
-
-def sup_dijkstra(P):
-    b = P.body("okane_core::report::price_db::NaivePriceRepository::compute_price_table")
-    loops = b.loops()
-    pushes = [(bb, t) for bb, t in mir.call_sites(b, ["std::collections::BinaryHeap::push"])
-              if any(bb in blks for blks in loops.values())]
-    if len(pushes) != 1:
-        return False, "expected one push inside the loop, found %d" % len(pushes)
-    bb, t = pushes[0]
-    flag = None
-    for a in mir.guards_at(b, bb):
-        if a.kind == "bool" and a.label == (True,):
-            rs = a.subject
-            if rs and all(r.kind == "const" and str(r.name) in ("true", "false") for r in rs):
-                flag = a
-    if flag is None:
-        return False, "push is not guarded by a boolean 'updated' flag"
-    # every `flag = false` assignment lies under a <= comparison of the stored distance
-    sw = b.term(flag.bb)["discr"]
-    l = sw["place"]["l"]
-    # walk back through Not / copies to the user variable
-    seen = set()
-    stack = [l]
-    users = set()
-    while stack:
-        x = stack.pop()
-        if x in seen:
-            continue
-        seen.add(x)
-        for d in b.defs().get(x, []):
-            if d[0] == "assign" and d[4]["k"] in ("use", "unop"):
-                o = d[4].get("op") or d[4].get("x")
-                if o.get("k") in ("copy", "move"):
-                    stack.append(o["place"]["l"])
-                elif o.get("k") == "const":
-                    users.add((x, d[1], o.get("repr")))
-    falses = [(x, dbb) for (x, dbb, rep) in users if rep == "false"]
-    trues = [(x, dbb) for (x, dbb, rep) in users if rep == "true"]
-    if not falses or not trues:
-        return False, "flag is not assigned both constants"
-    for x, dbb in falses:
-        ok = False
-        for cn, lab, ct in q.guard_calls(b, dbb):
-            if callee_def(ct) in ("std::cmp::PartialOrd::le", "std::cmp::PartialOrd::lt") and lab is True:
-                ok = True
-        if not ok:
-            return False, "`updated = false` is not under a stored <= new comparison"
-    return True, "queue.push only when the stored distance was strictly improved"
-
-
-def sup_load_impl_recursion(P):
-    """the recursive call is only reachable when `ancestors` did not contain the current
-    path, the path is pushed before the recursion, and the same vector is passed down"""
-    key = "okane_core::load::Loader::load_impl"
-    b = P.body(key)
-    rec = [(bb, t) for bb, t in b.calls() if key in callee_names(t)]
-    if not rec:
-        return False, "no recursive call found"
-    # index of the `ancestors` parameter
-    anc = None
-    for i in range(1, b.argc + 1):
-        if b.local_name(i) == "ancestors":
-            anc = i
-    if anc is None:
-        return False, "no `ancestors` parameter"
-    pushes = [bb for bb, t in mir.call_sites(b, ["std::vec::Vec::push"])
-              if q.all_roots(b, t["args"][0], lambda r: q.is_param(r, "ancestors"))]
-    if not pushes:
-        return False, "current path is never pushed to ancestors"
-    for bb, t in rec:
-        passed = t["args"][anc - 1]
-        if not q.all_roots(b, passed, lambda r: q.is_param(r, "ancestors")):
-            return False, "recursive call does not pass `ancestors` down"
-        if not any(b.must_pass_block(bb, p) for p in pushes):
-            return False, "recursive call not dominated by ancestors.push(current)"
-        ok = False
-        for cn, lab, ct in q.guard_calls(b, bb):
-            if callee_def(ct) in ("std::iter::Iterator::any",) and lab is False:
-                # the receiver iterates `ancestors`
-                for r in prov(b, ct["args"][0]):
-                    if r.kind == "call" and r.site is not None and \
-                            q.all_roots(b, b.term(r.site)["args"][0], lambda r2: q.is_param(r2, "ancestors")):
-                        ok = True
-            if callee_def(ct) in ("core::slice::contains", "std::collections::HashSet::contains",
-                                  "std::collections::BTreeSet::contains") and lab is False:
-                if q.all_roots(b, ct["args"][0], lambda r: q.is_param(r, "ancestors")):
-                    ok = True
-            if callee_def(ct) in ("std::collections::HashSet::insert", "std::collections::BTreeSet::insert") and lab is True:
-                if q.all_roots(b, ct["args"][0], lambda r: q.is_param(r, "ancestors")):
-                    ok = True
-        if not ok:
-            return False, "recursive call not guarded by an absent-membership test on ancestors"
-    # the root call starts with a fresh collection
-    outer = [c for c in q.callers_of(P, key) if c[0].key != key and q.not_test(c[0])]
-    for ob, obb, ot in outer:
-        a = ot["args"][anc - 1]
-        if not q.all_roots(ob, a, lambda r: r.kind == "call" and r.name in ("std::vec::Vec::new", "std::collections::HashSet::new")):
-            return False, "outer caller %s does not start with an empty collection" % ob.key
-    return True, "recursion under !ancestors.any(== path), after ancestors.push(path), same vector passed down"
-
-
-SUPPORT = {
-    "load_impl_recursion_guarded_by_ancestors": sup_load_impl_recursion,
-    "parsed_iter_over_complete_str": sup_parsed_iter_over_complete_str,
-    "parsed_context_built_only_in_next_impl": sup_parsed_context_built_only_in_next_impl,
-    "compute_line_number_callers": sup_compute_line_number_callers,
-    "split_dominated_by_len_assert": sup_split_dominated_by_len_assert,
-    "lot_arms_cover_one_of": sup_lot_arms_cover_one_of,
-    "aligned_comma_offset_is_prefix_len": sup_aligned_comma_offset_is_prefix_len,
-    "from_str_accumulate_is_checked": sup_from_str_accumulate_is_checked,
-    "digit_sub_guarded_by_is_ascii_digit": sup_digit_sub_guarded_by_is_ascii_digit,
-    "unfilled_index_from_enumerate_and_one_push_per_iteration": sup_unfilled_index,
-    "try_from_syntax_rejects_zero_amount": sup_try_from_syntax_rejects_zero_amount,
-    "computed_posting_exchange_only_from_try_from_syntax": sup_exchange_only_from_try_from_syntax,
-    "intern_impl_called_after_absent_lookup": sup_intern,
-    "rates_index_is_partition_point_of_same_vec": sup_rates_index,
-    "parsed_iter_loop_leaves_on_err": sup_parsed_iter_loop_leaves_on_err,
-    "from_values_callers_pass_finite": sup_from_values_callers,
-    "dijkstra_push_guarded_by_improvement": sup_dijkstra,
-}
-
-
 def check_main_exit(P, chk):
-    b = P.body("okane::main")
-    chk.analysed(b)
-    runs = mir.call_sites(b, ["okane::cmd::Cli::run"])
-    if len(runs) != 1:
-        chk.anchor_missing("main: expected exactly one call of Cli::run, found %d" % len(runs))
-        return
-    bb, t = runs[0]
-    sw = t["target"]
-    ds = mir.describe_switch(b, sw)
-    if not ds or ds[0] != "variant":
-        chk.anchor_missing("main: result of Cli::run is not matched")
-        return
-    err_targets = [tb for tb, labs in ds[2].items() if "Err" in labs]
-    key = "okane::main|Err-arm-exits-nonzero"
-    if not err_targets or any("Ok" in ds[2][tb] for tb in err_targets):
-        chk.fail(R_MAIN, key, b.loc(sw), "the Err arm of cli.run(..) is not separated from Ok")
-        return
-    exits = mir.call_sites(b, ["std::process::exit"])
-    exit_blocks = [e[0] for e in exits]
-    ok = bool(exits)
-    detail = []
-    for ebb, et in exits:
-        c = et["args"][0].get("int")
-        if c is None or c == 0:
-            ok = False
-            detail.append("exit code is not a non-zero constant")
-    for tb in err_targets:
-        reach = b.reach_from(tb, without_blocks=tuple(exit_blocks))
-        if any(b.term(x)["k"] == "return" for x in reach):
-            ok = False
-            detail.append("a path from the Err arm returns from main without exit(..)")
-        # a message goes to stderr before exiting
-        ep = q.blocks_calling(b, ["std::io::_eprint"])
-        if not ep or not any(b.must_pass_block(e, x) for e in exit_blocks for x in ep):
-            ok = False
-            detail.append("no eprint on the way to exit")
-    chk.require(ok, R_MAIN, key, b.loc(sw), "; ".join(detail) or "no exit", "Err -> eprint -> exit(1) on all paths")
+    shared.main_exit(P, chk, R_MAIN)
 
 
 def run(P, chk, tier):
-    chk.rule(R_SRC, "every Assert terminator and panic-by-contract call in the cone is guarded, tabled with verified support, or a known finding")
-    chk.rule(R_LOOP, "every natural loop exits on None of a finite std iterator, or is tabled")
-    chk.rule(R_RANGE, "no consuming call on an unbounded std iterator (RangeFrom, repeat, ...)")
-    chk.rule(R_SCC, "every call-graph cycle is tabled with its bound, or is a known finding")
     chk.rule(R_MAIN, "main: Err of cli.run reaches process::exit(non-zero) after writing to stderr")
-    chk.rule(R_SUP, "machine-checked supporting obligation of a table entry")
-    table = common.load_table("panic_sites.toml")
-    entries = {e["key"]: e for e in table["site"]}
-    used = set()
     bodies = common.c06_cone(P)
     chk.analysed(*bodies)
     chk.floor("bodies in cone", len(bodies), FLOOR_BODIES)
-
-    sup_cache = {}
-
-    def support_ok(names):
-        allok = True
-        for n in names:
-            if n not in sup_cache:
-                fnc = SUPPORT.get(n)
-                if fnc is None:
-                    sup_cache[n] = (False, "unknown support obligation")
-                else:
-                    try:
-                        sup_cache[n] = fnc(P)
-                    except mir.AnchorMissing as e:
-                        sup_cache[n] = (False, "anchor missing: %s" % e)
-            ok, detail = sup_cache[n]
-            allok = allok and ok
-        return allok
-
-    def settle(rule, inst_key, where, detail, auto):
-        if auto:
-            chk.ok(rule, inst_key, where, "guard idiom: " + auto)
-            return
-        e = entries.get(inst_key)
-        if e is not None:
-            used.add(inst_key)
-            sup = e.get("support", [])
-            if support_ok(sup):
-                chk.ok(rule, inst_key, where, "table: " + e["reason"])
-            else:
-                bad = [n for n in sup if not sup_cache[n][0]]
-                chk.fail(rule, inst_key, where,
-                         "table entry's supporting obligation failed: " +
-                         "; ".join("%s: %s" % (n, sup_cache[n][1]) for n in bad))
-            return
-        chk.fail(rule, inst_key, where, "unreviewed " + detail)
-
-    src = panics.enumerate_sources(P, bodies)
-    chk.add_sites(len(src))
+    S = surface.Surface(P, chk)
+    src = S.sources(bodies)
     chk.floor("panic sources", len(src), FLOOR_SOURCES)
-    for inst in sorted(src, key=lambda i: i.key):
-        settle(R_SRC, inst.key, inst.body.loc(inst.bb), inst.detail, panics.try_discharge(P, inst))
-    for inst in panics.range_from_sources(P, bodies):
-        settle(R_RANGE, inst.key, inst.body.loc(inst.bb), inst.detail, None)
-    loops = panics.loop_sources(P, bodies)
+    S.ranges(bodies)
+    loops = S.loops(bodies)
     chk.floor("natural loops", len(loops), FLOOR_LOOPS)
-    for inst, why in loops:
-        settle(R_LOOP, inst.key, inst.body.loc(inst.bb), inst.detail, why)
-    cone = set(b.key for b in bodies)
-    nscc = 0
-    for comp in P.sccs():
-        members = [k for k in comp if k in cone]
-        if not members:
-            continue
-        nscc += 1
-        key = "scc|" + comp[0]
-        b0 = P.bodies[comp[0]]
-        settle(R_SCC, key, b0.loc(), "recursion cycle of %d function(s): %s" % (len(comp), ", ".join(comp[:6])), None)
+    nscc = S.sccs(bodies)
     chk.floor("recursion cycles", nscc, 4)
-    for n, (ok, detail) in sorted(sup_cache.items()):
-        if ok:
-            chk.ok(R_SUP, n, "", detail)
-    stale = sorted(set(entries) - used)
-    if stale:
-        chk.note("stale table entries (site no longer present): %d: %s" % (len(stale), "; ".join(s[:90] for s in stale[:5])))
-    chk.extra["stale_table_entries"] = stale
+    S.finish()
     check_main_exit(P, chk)
